@@ -18,7 +18,7 @@ def run(ck, P):
 
     # ------------------------------------------------------------------ 1. only stack operations touch the handler stack
     ck.rule("C17.1-WHO-TOUCHES", "R-WHO-CALLS: _mod.recvs is used only as: m_stack_push in m_mod_become, m_stack_pop in m_mod_unbecome, "
-            "m_stack_peek in call_pubsub_cb, m_stack_clear in reset_module, creation in m_mod_register, m_stack_free in module_dtor", floor=6)
+            "m_stack_peek in call_pubsub_cb, m_stack_clear in reset_module, creation in m_mod_register, m_stack_free in module_dtor", floor=5)
     allowed = {("m_mod_become", "m_stack_push"), ("m_mod_unbecome", "m_stack_pop"), ("call_pubsub_cb", "m_stack_peek"),
                ("reset_module", "m_stack_clear"), ("module_dtor", "m_stack_free"), ("m_mod_register", "m_stack_new")}
     seen = set()
@@ -47,7 +47,8 @@ def run(ck, P):
                   nontrivial=False)
     for b in [b for f in P.funcs for b in f.blocks.values() if b.term and b.term.get("cond") is not None]:
         pass
-    ck.need({k for k in allowed} <= seen | {("m_mod_register", "m_stack_new")}, "handler-stack anchor vanished: %s" % sorted(allowed - seen))
+    must_see = {("m_mod_become", "m_stack_push"), ("m_mod_unbecome", "m_stack_pop"), ("call_pubsub_cb", "m_stack_peek")}
+    ck.need(must_see <= seen, "handler-stack anchor vanished: %s" % sorted(must_see - seen))
 
     # ------------------------------------------------------------------ 2. selection at delivery time
     ck.rule("C17.2-SELECTION", "dataflow in call_pubsub_cb: the handler invoked is the value of m_stack_peek(mod->recvs) read once before the "
